@@ -14,6 +14,7 @@ import (
 	"os/exec"
 	"path/filepath"
 	"runtime"
+	"runtime/debug"
 	"strconv"
 	"strings"
 	"sync"
@@ -252,6 +253,29 @@ func isoWorker(run *ev.Run, spec isoSpec, w, n, startAfter int, dir string) {
 	journal := filepath.Join(dir, fmt.Sprintf("journal-%d", w))
 	part := os.Getenv("VERIF_PART")
 	done := 0
+	// Runaway recursion: Go's default goroutine stack limit is 1 GB, which a decoder that recurses without
+	// consuming input only reaches after minutes (the tree it builds on the way is what is slow). Workers run
+	// with a 256 MB limit: inputs here are <= 16 KiB, so a stack of 256 MB means >= 16 KB of stack per input
+	// byte — recursion that is not bounded by the input (or that overflows the real limit on a 4x larger input
+	// of the same shape). While the stack is still growing the worker touches its journal so that the parent's
+	// silence watchdog lets it reach the fault; "fatal error: stack overflow" then kills the worker and the
+	// parent reports it as the runtime fault it is.
+	debug.SetMaxStack(256 << 20)
+	go func() {
+		var last uint64
+		var ms runtime.MemStats
+		for {
+			time.Sleep(400 * time.Millisecond)
+			runtime.ReadMemStats(&ms)
+			if ms.StackInuse > last+(8<<20) {
+				last = ms.StackInuse
+				now := time.Now()
+				_ = os.Chtimes(journal, now, now)
+			} else if ms.StackInuse+(8<<20) < last {
+				last = ms.StackInuse
+			}
+		}
+	}()
 	for k := w; k < spec.NJobs; k += n {
 		if k <= startAfter {
 			continue
